@@ -37,7 +37,7 @@ IMPORT_ROLES = {
     ("sqlframe.base.session", "_BaseSession"): "SESSION_CLS",
 }
 BUILTIN_TYPES = {"str", "int", "float", "bool", "list", "tuple", "set", "dict", "bytes"}
-BUILTIN_PRIMS = {"len": "len", "list": "list", "tuple": "tuple", "str": "str"}
+BUILTIN_PRIMS = {"len": "len", "list": "list", "tuple": "tuple", "str": "str", "reversed": "reversed"}
 MUTATORS = {"append": "append", "extend": "extend"}
 
 
@@ -348,6 +348,16 @@ class FuncTranslator:
             finally:
                 self.comp_vars.pop()
             return f"(EComp {c_str(g.target.id)} {it} {elt} {c_opt(cond)})"
+        if isinstance(e, ast.JoinedStr):
+            parts = []
+            for v in e.values:
+                if isinstance(v, ast.Constant):
+                    parts.append(E_const(v.value))
+                elif isinstance(v, ast.FormattedValue) and v.conversion == -1 and v.format_spec is None:
+                    parts.append(self.tr(v.value))
+                else:
+                    raise Opaque("f-string with conversion/format spec")
+            return f"(EPrim \"fstr\" {c_list(parts)} [])"
         raise Opaque("expression " + type(e).__name__)
 
     def tr_call(self, c: ast.Call) -> str:
@@ -437,6 +447,9 @@ class FuncTranslator:
             if role is not None and role.startswith("FUN:") and d == head:
                 args, kws = self.args_of(c)
                 return f"(ECall (EFun {c_str(role[4:])}) {c_list(args)} {c_kw(kws)})"
+            if role == "TYPING_ONLY" and d == head:
+                # imported under `if TYPE_CHECKING:` only: the name does not exist at run time
+                return "(EPrim \"nameerror\" [] [])"
             if role is not None:
                 raise Opaque(f"call of {d} ({role})")
             canon = self.m.canonical(head)
@@ -536,6 +549,12 @@ class FuncTranslator:
                 else:
                     self.local_roles[local] = IMPORT_ROLES.get((s.module, a.name), f"UNKNOWN:{s.module}.{a.name}")
             return self.block(rest)
+        if isinstance(s, ast.For):
+            if s.orelse or not isinstance(s.target, ast.Name):
+                raise Opaque("for loop with else / tuple target")
+            return f"(SFor {c_str(s.target.id)} {self.tr(s.iter)} {self.block(s.body)} {self.block(rest)})"
+        if isinstance(s, ast.Break):
+            return "SBreak"
         if isinstance(s, ast.Raise):
             name = "exception"
             if s.exc is not None:
@@ -677,36 +696,55 @@ def primitive_facts(repo):
     if not facts["ctor_str_is_parsed"]:
         raise Untranslatable("Column.__init__ has an unrecognised dispatch: " + txt[:300])
 
-    # invoke_anonymous_function
+    # invoke_anonymous_function: every statement must be one of the recognised shapes (local names are free)
+    import re
+    W = r"[A-Za-z_]\w*"
     fn = _method(cls, "invoke_anonymous_function")
-    txt = ast.unparse(fn)
     a = fn.args
     pnames = [x.arg for x in a.args]
-    if len(pnames) != 3 or a.vararg is None:
+    if len(pnames) != 3 or a.vararg is None or a.kwarg or a.kwonlyargs:
         raise Untranslatable("invoke_anonymous_function signature changed")
-    col_p, var_p = pnames[1], a.vararg.arg
-    this_co = f"[] if {col_p} is None else [cls.ensure_col({col_p})]" in txt
-    this_raw = f"[] if {col_p} is None else [{col_p}]" in txt or f"[] if {col_p} is None else [cls({col_p})]" in txt
-    args_co = any(f"[cls.ensure_col({v}) for {v} in {var_p}]" in txt for v in ("arg", "x", "a", "c"))
-    if not (this_co or this_raw):
-        raise Untranslatable("invoke_anonymous_function: cannot see how `column` is coerced: " + txt[:300])
-    if "exp.Anonymous(this=" not in txt or ".column_expression for" not in txt:
-        raise Untranslatable("invoke_anonymous_function: unrecognised construction: " + txt[:300])
-    facts["anon_coerces_this"] = this_co
-    facts["anon_coerces_args"] = args_co
+    col_p, name_p, var_p = pnames[1], pnames[2], a.vararg.arg
+    st = [ast.unparse(x) for x in _body(fn)]
+    if len(st) != 5:
+        raise Untranslatable("invoke_anonymous_function: unrecognised body: " + " ; ".join(st)[:300])
+    m0 = re.fullmatch(rf"({W}) = \[\] if {col_p} is None else \[(cls\.ensure_col|cls|Column|cls\._lit)\({col_p}\)\]", st[0])
+    m1 = re.fullmatch(rf"({W}) = \[(cls\.ensure_col|cls\._lit|cls|Column)\(({W})\) for \3 in {var_p}\]", st[1])
+    if not m0 or not m1:
+        raise Untranslatable("invoke_anonymous_function: cannot see how column/args are coerced: " + " ; ".join(st[:2]))
+    m2 = re.fullmatch(rf"({W}) = \[({W})\.column_expression for \2 in {m0.group(1)} \+ {m1.group(1)}\]", st[2])
+    m3 = m2 and re.fullmatch(rf"({W}) = exp\.Anonymous\(this={name_p}\.upper\(\), expressions={m2.group(1)}\)", st[3])
+    m4 = m3 and re.fullmatch(rf"return Column\({m3.group(1)}\)", st[4])
+    if not m4:
+        raise Untranslatable("invoke_anonymous_function: unrecognised construction: " + " ; ".join(st[2:]))
+    if m0.group(2) not in ("cls.ensure_col", "cls", "Column") or m1.group(2) not in ("cls.ensure_col", "cls._lit"):
+        raise Untranslatable("invoke_anonymous_function: coercion outside the modelled alternatives")
+    facts["anon_coerces_this"] = m0.group(2) == "cls.ensure_col"
+    facts["anon_coerces_args"] = m1.group(2) == "cls.ensure_col"
 
     # invoke_expression_over_column
     fn = _method(cls, "invoke_expression_over_column")
-    txt = ast.unparse(fn)
-    col_p = fn.args.args[1].arg
-    facts["over_coerces_this"] = f"None if {col_p} is None else cls.ensure_col({col_p})" in txt
-    if not facts["over_coerces_this"] and f"None if {col_p} is None else" not in txt:
-        raise Untranslatable("invoke_expression_over_column: cannot see how `column` is coerced")
-    facts["over_coerces_kwargs"] = ("[cls.ensure_col(x).column_expression for x in v] if is_iterable(v) "
-                                    "else cls.ensure_col(v).column_expression") in txt
-    facts["over_drops_none"] = "for k, v in kwargs.items() if v is not None" in txt
-    if "callable_expression(this=" not in txt:
-        raise Untranslatable("invoke_expression_over_column: unrecognised construction")
+    if len(fn.args.args) != 3 or fn.args.vararg or not fn.args.kwarg:
+        raise Untranslatable("invoke_expression_over_column signature changed")
+    col_p, cls_p, kw_p = fn.args.args[1].arg, fn.args.args[2].arg, fn.args.kwarg.arg
+    st = [ast.unparse(x) for x in _body(fn)]
+    if len(st) != 4:
+        raise Untranslatable("invoke_expression_over_column: unrecognised body: " + " ; ".join(st)[:300])
+    m0 = re.fullmatch(rf"({W}) = None if {col_p} is None else (cls\.ensure_col|cls|Column)\({col_p}\)", st[0])
+    m1 = re.fullmatch(
+        rf"({W}) = \{{({W}): \[(cls\.ensure_col|cls\._lit)\(({W})\)\.column_expression for \4 in ({W})\] if is_iterable\(\5\) "
+        rf"else \3\(\5\)\.column_expression for \2, \5 in {kw_p}\.items\(\)( if \5 is not None)?\}}", st[1])
+    if not m0 or not m1:
+        raise Untranslatable("invoke_expression_over_column: cannot see how column/kwargs are coerced: " + " ; ".join(st[:2])[:400])
+    m2 = re.fullmatch(
+        rf"({W}) = {cls_p}\(\*\*{m1.group(1)}\) if {m0.group(1)} is None else "
+        rf"{cls_p}\(this={m0.group(1)}\.column_expression, \*\*{m1.group(1)}\)", st[2])
+    m3 = m2 and re.fullmatch(rf"return Column\({m2.group(1)}\)", st[3])
+    if not m3:
+        raise Untranslatable("invoke_expression_over_column: unrecognised construction: " + " ; ".join(st[2:])[:300])
+    facts["over_coerces_this"] = m0.group(2) == "cls.ensure_col"
+    facts["over_coerces_kwargs"] = m1.group(3) == "cls.ensure_col"
+    facts["over_drops_none"] = m1.group(6) is not None
 
     # binary_op / inverse_binary_op
     lits = []
@@ -770,6 +808,18 @@ def primitive_facts(repo):
         facts["lit_str_is_literal"] = False      # falls to Column(value): parsed as a column reference
     else:
         raise Untranslatable("functions.lit: unrecognised str branch")
+    # session.format_time / format_execution_time: a Column is replaced by value.expression.this (its NAME)
+    with open(os.path.join(repo, "sqlframe/base/session.py")) as f:
+        stree = ast.parse(f.read())
+    fmts = {n.name: ast.unparse(n) for n in ast.walk(stree)
+            if isinstance(n, ast.FunctionDef) and n.name in ("format_time", "format_execution_time")}
+    if set(fmts) != {"format_time", "format_execution_time"}:
+        raise Untranslatable("session.format_time / format_execution_time not found")
+    uses_this = ["if isinstance(value, Column):\n        value = value.expression.this" in t for t in fmts.values()]
+    quotes = ["format_time(f\"'{value}'\")" in t for t in fmts.values()]
+    if not all(quotes) or len(set(uses_this)) != 1:
+        raise Untranslatable("session.format_time: unrecognised body")
+    facts["fmt_col_is_name"] = uses_this[0]
     return facts, hashlib.sha1(src.encode()).hexdigest()[:12]
 
 
@@ -919,7 +969,7 @@ def generate(repo):
         f"{b(prims['ctor_str_is_parsed'])}",
         f"  {b(prims['anon_coerces_this'])} {b(prims['anon_coerces_args'])} {b(prims['over_coerces_this'])} "
         f"{b(prims['over_coerces_kwargs'])} {b(prims['over_drops_none'])}",
-        f"  {b(prims['binop_str_is_literal'])} {b(prims['pow_uses_ctor'])}",
+        f"  {b(prims['binop_str_is_literal'])} {b(prims['pow_uses_ctor'])} {b(prims['fmt_col_is_name'])}",
         f"  {c_list([c_str(o) for o in prims['col_ops']])}",
         f"  {c_list([c_str(o) for o in str_methods])}",
         f"  {c_list([f'({c_str(e)}, {c_str(exec_dialect[e])})' for e in ENGINES])}",
